@@ -319,7 +319,8 @@ def trace_core():
         tau = sym_vector("tau", 4)
         out["traced_strainEnergy"] = (
             "(tau r : Fin 4 → ℝ) (g0 p n lam : ℝ)", "scalar",
-            explore(lambda: core._get_strain_energy(tau, r, real_np.arange(4), g0, p, n, lam)))
+            explore(lambda: _call_by_name(core._get_strain_energy, crss=tau, slip_rates=r, slip_indices=real_np.arange(4), slip_rate_softest=g0,
+                                          stress_exponent=p, deformation_exponent=n, nucleation_efficiency=lam)))
     finally:
         core.np = real_np
     return out
@@ -370,7 +371,8 @@ def selfcheck(traced, n=40, seed=0):
             "traced_slipRateSoftest": core._get_slip_rate_softest(env["G"], env["L"]),
             "traced_orientationChange": core._get_orientation_change(env["A"], env["L"], env["G"], env["g0"]),
         }
-        real["traced_strainEnergy"] = core._get_strain_energy(env["tau"], env["r"], np.arange(4), env["g0"], env["p"], env["n"], env["lam"])
+        real["traced_strainEnergy"] = _call_by_name(core._get_strain_energy, crss=env["tau"], slip_rates=env["r"], slip_indices=np.arange(4), slip_rate_softest=env["g0"],
+                                                     stress_exponent=env["p"], deformation_exponent=env["n"], nucleation_efficiency=env["lam"])
         for name, want in real.items():
             _, kind, tree = traced[name]
             if kind == "scalar":
@@ -482,6 +484,20 @@ def selfcheck_velocity(traced, n=30, seed=0):
             if (want is None) != (got is None) or (want is not None and not np.allclose(got, want, rtol=1e-12, atol=1e-300)):
                 bad.append(name)
     return sorted(set(bad))
+
+
+def _call_by_name(fn, **named):
+    """call a private kernel with the arguments its CURRENT signature names (an unused parameter that was dropped, or a
+    reordering, is not a behaviour change); an unknown parameter name is an error: the tie is then genuinely broken"""
+    import inspect
+
+    f = getattr(fn, "py_func", fn)
+    params = list(inspect.signature(f).parameters)
+    missing = [p_ for p_ in params if p_ not in named]
+    if missing:
+        raise TypeError(f"{getattr(f, '__name__', f)} has parameters the translator does not know: {missing}")
+    return fn(*[named[p_] for p_ in params])
+
 
 
 # ------------------------------------------------------------------ tensors.py
